@@ -1,6 +1,7 @@
 /- kernel-checked rows of the beltFMTCalcB table: alphabet sizes 6146..7169, all counts 1..300 (static file; the
    constants come from the regenerated Bee2V.Gen.C01Tables through `calcB`) -/
 import Bee2V.C01.Lemmas.FmtTable
+set_option Elab.async false
 namespace Bee2V.C01
 
 set_option maxRecDepth 100000 in
